@@ -1,16 +1,27 @@
 /-
 C20 — kernel-checked witnesses.
 
-* `C20_finding_empty_struct_arg` (known finding `C20-empty-struct-arg`): the full statement
-  `C20_expr_Statement` is FALSE on the current code.  Witness: the call `g(e, 3)` with `e` of the GNU
-  empty struct type (size 0): `push_struct` pushes `align_to(0, 8) / 8 = 0` slots but the
-  register-loading loop of the ND_FUNCALL arm pops one GP register for the argument, so `depth`
-  ends at −1 (on the real compiler: `emit_text: Assertion 'depth == 0' failed`).
+* `C20_fixed_empty_struct_*` (was known finding `C20-empty-struct-arg`, repaired by /repo b298aee): the call
+  `g(e, 3)` with `e` of the GNU empty struct type (size 0).  Before the repair `struct_in_regs`
+  answered "one SSE register" for zero bytes (`structClsE`, the old answer, still says so):
+  `push_struct` pushed `align_to(0, 8) / 8 = 0` slots but the register-loading loop popped one register
+  and `depth` ended at −1 (`emit_text: Assertion 'depth == 0' failed`).  Now `struct_in_regs` answers
+  "no register" for size 0 and the loop skips the argument: `depth` is back at 0 and the code is balanced.
 * `C20_finding_jump_out_of_stmt_expr` (known finding `C20-jump-out-of-stmt-expr`): the full statement
   `C20_function_Statement` is FALSE on the current code.  Witness: `for (;;) { n = ({ continue; 2; }); }`:
   the assignment has pushed the address of `n` when the `continue` (a plain `jmp`) leaves the
   statement expression, so the loop's continue label is reached at two different stack heights —
   every such `continue` leaks 8 bytes.
+* `C20_finding_x87_depth_overflow` (known finding `C20-x87-depth-overflow`): `a+(a+(a+(a+(a+(a+(a+(a+a)))))))`
+  with nine long double operands: `gen_expr` keeps the left operand of every `+` on the x87 register
+  stack while it evaluates the right one, so the ninth `fldt` finds all eight registers occupied
+  (stack overflow: the result is NaN where gcc computes 9.0).  On the model: the code is balanced
+  (one height per label, `verifyL` passes: the label-height theorems apply) but its x87 depth
+  reaches 9, which `Effect.checkBody` rejects — `C20_function_Statement` is false.  Region:
+  `x87Deep` (Model/C20Flow.lean): the evaluation needs more than eight x87 registers.
+* `C20_checker_incomplete`: `C20_function_Statement` is also false for a reason that is not the
+  compiler's: `checkBody` infers label heights in three passes, a chain of five labels that are only
+  reached backwards needs four.  (`FnBalanced` — some labelling passes — is what the theorems prove.)
 * `C20_fixed_*`: the two defects repaired by /repo commit 5874e28, replayed on the model: with the
   old arms the effect is wrong, with the current arms it is right.
 -/
@@ -44,7 +55,7 @@ def emptyCall : Node :=
   .funcall ⟨some tInt, 1, 3⟩ (.var ⟨some tFn, 1, 3⟩ (some vG)) 3 none
     (.cons (.var ⟨some tEmpty, 1, 3⟩ (some vE)) (.cons (.num ⟨some tInt, 1, 3⟩ 3 0 0 0 0) .nil))
 
-/-- the region of the known finding: a struct/union argument of size 0 -/
+/-- the shape the repaired defect needed: a struct/union argument of size 0 -/
 def emptyStructArg : Node → Bool
   | .funcall _ _ _ _ args => args.toList.any fun a =>
       match a.ty? with
@@ -54,21 +65,19 @@ def emptyStructArg : Node → Bool
 
 theorem emptyCall_in_region : emptyStructArg emptyCall = true := by decide
 theorem emptyCall_typed : typedE env0 emptyCall = true := by decide
-theorem emptyCall_depth : depthOf (genExpr env0 emptyCall {}) = some (-1) := by decide
 
-/-- **Known finding C20-empty-struct-arg**: the full statement of C20 does not hold. -/
-theorem C20_finding_empty_struct_arg : ¬ C20_expr_Statement := by
-  intro h
-  have hd := emptyCall_depth
-  cases hres : genExpr env0 emptyCall {} with
-  | error e => rw [hres] at hd; simp [depthOf] at hd
-  | ok r =>
-    obtain ⟨⟨⟩, s', ls⟩ := r
-    have := (h env0 emptyCall emptyCall_typed {} s' ls hres).2
-    rw [hres] at hd
-    simp only [depthOf, Option.some.injEq] at hd
-    rw [hd] at this
-    exact absurd this (by decide)
+/-- before b298aee: `struct_in_regs` counted one SSE register for an aggregate of no bytes (`has_flonum` is vacuously true of it)
+    (the classification without the size-0 guard), so the register-loading loop popped a register that
+    `push_struct` had not pushed -/
+theorem C20_fixed_empty_struct_old : (structClsE env0 tEmpty).toOption = some (0, 1) := by decide
+
+/-- now: no register, no stack slot; the call is in the scope of the theorems (`covE`, `flowE`), `depth`
+    returns to where it was and the code is straight-line with effect (0, 0) -/
+theorem C20_fixed_empty_struct_new :
+    (structInRegsE env0 tEmpty 0 0).toOption = some (true, 0, 0) ∧ covE env0 emptyCall = true ∧ flowE emptyCall = true ∧
+    depthOf (genExpr env0 emptyCall {}) = some 0 ∧
+    (outOf (genExpr env0 emptyCall {})).map delta = some (some ⟨0, 0⟩) := by
+  decide
 
 /-! ### jump out of a statement expression under a pending push -/
 
@@ -143,6 +152,83 @@ theorem C20_finding_jump_out_of_stmt_expr : ¬ C20_function_Statement := by
     simp only [outOf, Option.map_some, Option.some.injEq] at hc
     rw [this] at hc
     cases hc
+
+/-! ### more long double values live than the x87 stack has registers -/
+
+def ldVar : Node := .var ⟨some tLD, 1, 2⟩ (some vX)
+
+/-- `x + (x + (… + x))` with `n + 1` long double operands -/
+def deep : Nat → Node
+  | 0 => ldVar
+  | n + 1 => .binop ⟨some tLD, 1, 2⟩ .add ldVar (deep n)
+
+def deepBody : Node := .exprStmt i0 (deep 8)
+
+def deepFn : Obj :=
+  { v := ⟨2, some "f", some tFnV, 1, false, true, true, false, false, false, false, true, true⟩,
+    initData := none, rels := [], params := [], locals := [vX, vAB], vaArea := none,
+    allocaBottom := some vAB, body := deepBody }
+
+def deepProg : Program :=
+  { fpic := false, fcommon := true, baseFile := none, files := [], prog := [deepFn],
+    types := [tInt, tLD, tEmpty, tFnV], vlaLens := [] }
+
+def deepEnv : Env :=
+  { fpic := false, types := [tInt, tLD, tEmpty, tFnV], fnName := some "f", retTy := some tInt, params := [],
+    allocaBottom := some vAB, offsets := [(1, -24), (0, -16)] }
+
+theorem deep_env : fnEnv deepProg deepFn = .ok (deepEnv, 32) := by
+  have h : (match fnEnv deepProg deepFn with
+      | .ok (e, k) => decide (e = deepEnv ∧ k = 32)
+      | .error _ => false) = true := by decide
+  cases hf : fnEnv deepProg deepFn with
+  | error e => rw [hf] at h; simp at h
+  | ok r =>
+    obtain ⟨e, k⟩ := r
+    rw [hf] at h
+    simp only [decide_eq_true_eq] at h
+    rw [h.1, h.2]
+
+theorem deep_typed : typedS deepEnv deepBody = true := by decide
+/-- the witness is inside the scope of the label-height theorems … -/
+theorem deep_in_scope : flowFn deepEnv deepBody = true := by decide
+/-- … and in the region of the finding: nine registers needed; with eight operands, eight -/
+theorem deep_region : x87Need (deep 8) = 9 ∧ x87Deep deepBody = true ∧ x87Deep (deep 7) = false := by decide
+
+/-- `Effect.checkBody` rejects the code of the witness ("height out of range: rsp 0, x87 9"), accepts the
+    same expression with eight operands, and the label-height check alone (`verifyL`) accepts both -/
+theorem deep_check :
+    (outOf (genStmt deepEnv deepBody {})).map (fun ls => (isErr (checkBody ls), isErr (verifyL [] (steps ls) (some H.zero))))
+      = some (true, false) ∧
+    (outOf (genExpr deepEnv (deep 7) {})).map (fun ls => isErr (checkBody ls)) = some false := by
+  decide
+
+/-- **Known finding C20-x87-depth-overflow**: a function whose code needs nine x87 registers. -/
+theorem C20_finding_x87_depth_overflow : ¬ C20_function_Statement := by
+  intro h
+  have hc := deep_check.1
+  cases hres : genStmt deepEnv deepBody {} with
+  | error e => rw [hres] at hc; simp [outOf] at hc
+  | ok r =>
+    obtain ⟨⟨⟩, s', ls⟩ := r
+    have := (h deepProg deepFn deepEnv 32 deep_env deep_typed {} s' ls hres).1
+    rw [hres] at hc
+    simp only [outOf, Option.map_some, Option.some.injEq, Prod.mk.injEq] at hc
+    rw [this] at hc
+    cases hc.1
+
+/-! ### the executable check is incomplete (not a defect of the compiler) -/
+
+/-- `goto A; D: goto E; C: goto D; B: goto C; A: goto B; E:` as a control-flow skeleton: balanced (every
+    label at height 0), but `checkBody`'s three inference passes give `E` no height -/
+def chainSteps : List Step :=
+  [.jump "A", .label "D", .jump "E", .label "C", .jump "D", .label "B", .jump "C", .label "A", .jump "B", .label "E"]
+
+theorem C20_checker_incomplete :
+    isErr (verify (inferN 3 chainSteps []) chainSteps (some H.zero)) = true ∧
+    isErr (verifyL [("A", H.zero), ("B", H.zero), ("C", H.zero), ("D", H.zero), ("E", H.zero)] chainSteps
+      (some H.zero)) = false := by
+  decide
 
 /-! ### repaired by 5874e28 ("keep the x87 register stack balanced") -/
 
